@@ -24,10 +24,21 @@ import (
 // position; never in a column that is the parent key of a foreign key), generated columns are not
 // stored.
 func (s Schema) Cell(table, column string, row int) (lit string, null bool) {
-	return s.cell(table, column, row, 0)
+	return s.cell(table, column, row, 0, "")
 }
 
-func (s Schema) cell(table, column string, row, depth int) (string, bool) {
+// CellFlex is Cell for a database populated with PopulateFlex: in ordinary (non STRICT) tables SQLite
+// stores any storage class in any column, and columns declared ANY do so in STRICT tables too. With
+// flex "all", every column that is not a key, not part of a foreign key, and not mentioned by a check
+// or a generated column holds, depending on (row + column position) % 4: its native tagged value, the
+// TEXT tag, the REAL tag or the BLOB tag — so an INT column holds text, reals and blobs. With flex
+// "any" only columns declared ANY do. quote() distinguishes the storage classes, so a value that is
+// cast or converted on the way is recognisable.
+func (s Schema) CellFlex(table, column string, row int, flex string) (lit string, null bool) {
+	return s.cell(table, column, row, 0, flex)
+}
+
+func (s Schema) cell(table, column string, row, depth int, flex string) (string, bool) {
 	ti := slices.IndexFunc(s.Tables, func(t Table) bool { return t.Name == table })
 	if ti < 0 {
 		return "NULL", true
@@ -54,14 +65,32 @@ func (s Schema) cell(table, column string, row, depth int) (string, bool) {
 		if f.RefTable == table && f.RefCols[k] == column {
 			break
 		}
-		return s.cell(f.RefTable, f.RefCols[k], row, depth+1)
+		return s.cell(f.RefTable, f.RefCols[k], row, depth+1, "")
 	}
-	if c.Null && (row+ci)%3 == 0 && len(s.ReferencedBy(table, column, true)) == 0 {
+	isKey := t.InPK(column) || len(s.ReferencedBy(table, column, true)) > 0
+	if c.Null && (row+ci)%3 == 0 && !isKey {
 		return "NULL", true
 	}
 	n := ((ti+1)*100+ci+1)*1000 + row + 1
 	tag := fmt.Sprintf("%s.%s.%d", table, column, row)
-	switch Affinity(c.Type) {
+	aff := Affinity(c.Type)
+	if flex != "" && !isKey && !t.isFKCol(column) && (c.Type == "any" || flex == "all" && !t.Strict) {
+		plain := true
+		for _, u := range t.ColUses(column) {
+			plain = plain && strings.HasPrefix(u, "idx:")
+		}
+		if plain {
+			switch (row + ci) % 4 {
+			case 1:
+				aff = "TEXT"
+			case 2:
+				aff = "REAL"
+			case 3:
+				aff = "BLOB"
+			}
+		}
+	}
+	switch aff {
 	case "INTEGER":
 		return fmt.Sprint(n), false
 	case "REAL":
@@ -75,7 +104,10 @@ func (s Schema) cell(table, column string, row, depth int) (string, bool) {
 }
 
 // InsertStmts returns the INSERT statements of Populate.
-func (s Schema) InsertStmts(rows int) []string {
+func (s Schema) InsertStmts(rows int) []string { return s.InsertStmtsFlex(rows, "") }
+
+// InsertStmtsFlex returns the INSERT statements of PopulateFlex (see CellFlex).
+func (s Schema) InsertStmtsFlex(rows int, flex string) []string {
 	var out []string
 	for _, t := range s.Tables {
 		var cols []string
@@ -87,7 +119,7 @@ func (s Schema) InsertStmts(rows int) []string {
 		for r := 0; r < rows; r++ {
 			vals := make([]string, len(cols))
 			for i, c := range cols {
-				vals[i], _ = s.Cell(t.Name, c, r)
+				vals[i], _ = s.CellFlex(t.Name, c, r, flex)
 			}
 			out = append(out, fmt.Sprintf(`INSERT INTO "%s" ("%s") VALUES (%s)`, t.Name, strings.Join(cols, `", "`), strings.Join(vals, ", ")))
 		}
@@ -98,7 +130,11 @@ func (s Schema) InsertStmts(rows int) []string {
 // Populate fills every table of the database (which must have schema s) with `rows` tagged rows.
 // It uses a connection with foreign keys off (cyclic references) and verifies afterwards that the data
 // violates no foreign key.
-func Populate(path string, s Schema, rows int) error {
+func Populate(path string, s Schema, rows int) error { return PopulateFlex(path, s, rows, "") }
+
+// PopulateFlex is Populate with storage classes that do not match the declared column types where
+// SQLite's flexible typing allows it (flex "any" or "all", see CellFlex; "" = Populate).
+func PopulateFlex(path string, s Schema, rows int, flex string) error {
 	db, err := OpenDBNoFK(path)
 	if err != nil {
 		return err
@@ -108,7 +144,7 @@ func Populate(path string, s Schema, rows int) error {
 	if err != nil {
 		return err
 	}
-	for _, st := range s.InsertStmts(rows) {
+	for _, st := range s.InsertStmtsFlex(rows, flex) {
 		if _, err := tx.Exec(st); err != nil {
 			tx.Rollback()
 			return fmt.Errorf("%s: %w", st, err)
@@ -268,7 +304,7 @@ func DataSafe(a, b Schema) (bool, string) {
 					}
 				}
 			case c.Gen == nil:
-				if old.Null && !c.Null {
+				if old.Null && !c.Null && !ta.InPK(c.Name) { // (Populate stores no NULL in a key column)
 					defaulted[c.Name] = true
 					if c.Default == nil {
 						return false, tb.Name + "." + c.Name + ": NULL -> NOT NULL without default"
